@@ -82,6 +82,9 @@ def _patch():
 
     @functools.wraps(orig_opt)
     def orun(self, *a, **k):
+        if _INJECT.get('seen_x0') is not None:
+            _INJECT['seen_x0'].append(np.array(
+                self._optimiser._x0, dtype=float))
         if _INJECT['opt'] is not None:
             item = _INJECT['opt'].pop(0)
             if isinstance(item, Exception):
@@ -470,8 +473,14 @@ def optimisation_case(ctx, rng, idx):
     if post is None:
         ctx.reject('duplicate default names')
         return
-    n_runs = int(rng.integers(1, 5))
+    n_runs = int(rng.integers(1, 5)) if rng.random() < 0.6 else \
+        int(rng.integers(6, 10))
     n_par = post.n_parameters()
+    if n_par < 2:
+        # (pints' default optimiser, CMA-ES, refuses one-dimensional
+        # problems when the controller is created)
+        ctx.reject('one-dimensional optimisation problem')
+        return
     feats = {'kind': kind, 'n_runs': n_runs, 'n_parameters': n_par}
     ctx.case(('opt', kind, n_runs, n_par), True, sample=feats)
     ests = [(1000.0 * (r + 1) + np.arange(n_par), -7.5 - r)
@@ -484,20 +493,47 @@ def optimisation_case(ctx, rng, idx):
     if broken is not None:
         inject[broken] = FloatingPointError('injected optimiser failure')
         ests[broken] = (np.full(n_par, np.nan), np.nan)
+    seed_c = int(rng.integers(99))
+    # the number of runs may be set more than once (2, then the final one)
+    twice = bool(rng.random() < 0.4)
+    feats['n_runs_set_twice'] = twice
     try:
-        ctrl = chi.OptimisationController(post, seed=int(rng.integers(99)))
+        ctrl = chi.OptimisationController(post, seed=seed_c)
+        if twice:
+            ctrl.set_n_runs(2)
         ctrl.set_n_runs(n_runs)
         ctrl.set_parallel_evaluation(False)
         _INJECT['opt'] = inject
+        _INJECT['seen_x0'] = []
         try:
             tab = ctrl.run(n_max_iterations=3)
         finally:
             _INJECT['opt'] = None
+            x0s = _INJECT.get('seen_x0') or []
+            _INJECT['seen_x0'] = None
     except Exception as e:      # noqa
         ctx.violation_exc('optimisation_controller_raises', e,
                           {'case': feats}, feats)
         return
     ctx.count('optimisation_tables_checked')
+    # the runs start from the initial points the seed determines, whatever
+    # number of runs was set before: one independent draw per run
+    try:
+        want_x0 = np.asarray(post.sample_initial_parameters(
+            n_samples=n_runs, seed=seed_c), dtype=float)
+    except Exception as e:      # noqa
+        ctx.violation_exc('initial_points_raise', e, {'case': feats}, feats)
+        return
+    ctx.count('starting_points_compared', len(x0s))
+    if len(x0s) != n_runs or not np.array_equal(np.array(x0s), want_x0):
+        ctx.violation('initial_points_reproducible_from_seed',
+                      'starting_points_differ_from_seeded_initial_points',
+                      {'runs': len(x0s), 'n_runs': n_runs,
+                       'first entries of the starting points':
+                       [float(x_[0]) for x_ in x0s],
+                       'first entries of sample_initial_parameters':
+                       want_x0[:, 0].tolist()}, feats)
+        return
     pos = _positions(post, kind)
     if kind == 'individual':
         pos = [(n, post.get_id()) for n, _ in pos]
